@@ -588,3 +588,62 @@ func (w *Walker) maxVisits() int {
 	}
 	return 2
 }
+
+// mayHit: under env, can some path from start (until stop/return) execute an instruction
+// satisfying target? over reports an exceeded path budget.
+func mayHit(env *Env, fr *frame, start, pred *ssa.BasicBlock, stop func(*ssa.BasicBlock) bool, target func(ssa.Instruction, *Walker) bool) (hit bool, over bool) {
+	w := NewWalker(env, fr)
+	w.RetIdx = -1
+	w.Stop = stop
+	w.Target = target
+	for _, o := range w.Run(start, pred) {
+		if o.Ended == "overflow" {
+			over = true
+		}
+		if o.Hit {
+			hit = true
+		}
+	}
+	return
+}
+
+// OnlyIf checks, over all orderings, that target is reachable only when cond(ordering) holds.
+func (a *A) OnlyIf(construct string, pos token.Pos, what string, s OrdSpec, start, pred *ssa.BasicBlock,
+	stop func(*ssa.BasicBlock) bool, target func(ssa.Instruction, *Walker) bool, cond func(r map[string]int, f map[string]bool) bool) {
+	ords := weakOrderings(s.Roles)
+	nflag := 1 << len(s.Flags)
+	checked, constrained := 0, 0
+	for _, r := range ords {
+		for fm := 0; fm < nflag; fm++ {
+			flags := map[string]bool{}
+			for i, f := range s.Flags {
+				flags[f] = fm&(1<<i) != 0
+			}
+			if s.Invariant != nil && !s.Invariant(r, flags) {
+				continue
+			}
+			checked++
+			if cond(r, flags) {
+				continue
+			}
+			constrained++
+			env := &Env{Role: s.Role, Rank: r, Flags: flags, Assume: s.Assume, Norm: s.Norm, a: a}
+			hit, over := mayHit(env, nil, start, pred, stop, target)
+			if over {
+				a.Und(construct, pos, "%s: path budget exceeded", what)
+				return
+			}
+			if hit {
+				o := a.Bad(construct, pos, "%s: the effect is reachable under ordering [%s], where the property forbids it", what, fmtOrdering(r, flags))
+				o.Extra = map[string]any{"refuting_ordering": fmtOrdering(r, flags)}
+				return
+			}
+		}
+	}
+	if constrained == 0 {
+		a.Und(construct, pos, "%s: vacuous (no ordering is constrained)", what)
+		return
+	}
+	o := a.Ok(construct, pos, "%s: unreachable under all %d forbidden orderings (of %d) of (%s)", what, constrained, checked, strings.Join(s.Roles, ","))
+	o.Extra = map[string]any{"exhaustive": true}
+}
